@@ -17,6 +17,8 @@
 //           -> [called; verdict; delay; errcode; sink_n; sink_eq]   (0 ms = timeout not configured)
 //   kind 12 a history: several sends in a row against one receiver whose sink is NOT reset in between:
 //           [t; a; items; o... (8 numbers per send)] -> [verdict; delay (2 numbers per send)] ++ [-7] ++ [indices of the sends found at the sink, in order]
+//   kind 13 hop to a receiver with an explicit compression_algorithms list: [transport; compression name code; items; o...; signal; list codes...]
+//           -> [called; verdict; delay; errcode; sink_n; sink_eq]    (codes: 0 "", 1 gzip, 2 zstd, 3 zlib, 4 snappy, 5 deflate, 6 lz4)
 //   kind 9  raw gRPC frame:    [auth; body; o...]                            -> [called; code; ri_present; ri_nanos]   (code 0 = OK)
 //
 // Direct oracle (independent of the Coq model): the property's sentences — sink payload equals the sent
@@ -1974,6 +1976,127 @@ func (v *vEnv) history(r *vRand, k int) {
 	}
 }
 
+
+// ---- receivers with an explicit compression_algorithms list x every exporter compression (kind 13) ------------------
+var vCompCodes = map[string]int{"none": 0, "gzip": 1, "zstd": 2, "zlib": 3, "snappy": 4, "deflate": 5, "lz4": 6}
+var vCodeNames = []string{"", "gzip", "zstd", "zlib", "snappy", "deflate", "lz4"}
+
+func (v *vEnv) compressionLists(r *vRand, host component.Host) {
+	lists := [][]int{
+		{0, 1, 5},          // "deflate" without "zlib"
+		{5, 3},             // "deflate" before "zlib", no uncompressed requests
+		{0, 6, 4, 2},       // only the lazy decoders
+		{0, 3},             // "zlib" without "deflate"
+		{0, 1, 2, 3, 4, 5, 6}, // the default list written out
+	}
+	for k := 0; k < 2; k++ { // and two random lists (random subset, random order)
+		var l []int
+		for _, c := range []int{0, 1, 2, 3, 4, 5, 6} {
+			if r.Bool() {
+				l = append(l, c)
+			}
+		}
+		for i := len(l) - 1; i > 0; i-- {
+			j := r.Intn(i + 1)
+			l[i], l[j] = l[j], l[i]
+		}
+		if len(l) == 0 {
+			l = []int{5}
+		}
+		lists = append(lists, l)
+	}
+	for _, l := range lists {
+		names := make([]string, len(l))
+		var codes []string
+		for i, c := range l {
+			names[i] = vCodeNames[c]
+			codes = append(codes, vZ(int64(c)))
+		}
+		rc, err := vStartReceiver(false, host, func(cfg *otlpreceiver.Config) { cfg.HTTP.ServerConfig.CompressionAlgorithms = names })
+		if err != nil {
+			v.t.Fatalf("cannot start a receiver with compression_algorithms %q: %v", names, err)
+		}
+		listed := func(c int) bool {
+			for _, x := range l {
+				if x == c {
+					return true
+				}
+			}
+			return false
+		}
+		for ci, comp := range vHTTPComps {
+			transport := 1 + (ci+len(l))%2
+			signal := (ci + l[0]) % 4
+			o := vOutcome{}
+			if ci%3 == 2 {
+				o = vRandOutcome(r)
+			}
+			items := 1 + r.Intn(6)
+			p := vMkPayload(r, signal, items)
+			rc.sink.set(o.err())
+			e, eerr := vNewExporter(transport, comp, 0, signal, rc, host)
+			if eerr != nil {
+				v.t.Fatalf("cannot create an exporter: %v", eerr)
+			}
+			sendErr := p.send(e)
+			_ = e.comp.Shutdown(context.Background())
+			verdict, delay := vClassify(sendErr)
+			code := vErrCode(sendErr)
+			got := rc.sink.got()
+			called := len(got) > 0
+			sinkEq := int64(1)
+			for _, g := range got {
+				if !bytes.Equal(g, p.canon) {
+					sinkEq = 0
+				}
+			}
+			b2z := func(b bool) int64 {
+				if b {
+					return 1
+				}
+				return 0
+			}
+			cc := vCompCodes[comp]
+			in := append([]string{vZ(int64(transport)), vZ(int64(cc)), vZ(int64(items))}, o.terms()...)
+			in = append(in, vZ(int64(signal)))
+			in = append(in, codes...)
+			obs := []string{vZ(b2z(called)), vZ(int64(verdict)), vZ(delay), vZ(code), vZ(int64(len(got))), vZ(sinkEq)}
+			term := vPair("13", vPair(vList(in), vList(obs)))
+			v.out.Case(true, term)
+			v.out.Stat(fmt.Sprintf("complist_%v_listed_%v", comp, listed(cc)), 1)
+			desc := fmt.Sprintf("receiver compression_algorithms=%q exporter compression=%s transport=%d items=%d signal=%d outcome=%+v: called=%v verdict=%d delay=%d code=%d err=%v",
+				names, comp, transport, items, signal, o, called, verdict, delay, code, sendErr)
+			if !listed(cc) {
+				if called {
+					v.out.Oracle("client-error-reached-consumer", term, "a Content-Encoding the receiver does not list reached the consumer; "+desc)
+				}
+				if verdict != 1 {
+					v.out.Oracle("client-error-status", term, "a Content-Encoding the receiver does not list must be refused as a client error (permanent); "+desc)
+				}
+				continue
+			}
+			if !called || len(got) != 1 {
+				v.out.Oracle("payload-not-delivered", term, "both sides offer this compression; "+desc)
+			} else if sinkEq != 1 {
+				v.out.Oracle("sink-payload-differs", term, desc)
+			}
+			want := o.expectedClass(transport)
+			cls := verdict
+			if cls == 3 {
+				cls = 2
+			}
+			if want != cls {
+				if (want == 0) != (cls == 0) {
+					v.out.Oracle("success-iff-accepted", term, "both sides offer this compression; "+desc)
+				} else {
+					v.out.Oracle("failure-meaning-changed", term, fmt.Sprintf("want class %d; %s", want, desc))
+				}
+			}
+		}
+		rc.stop()
+	}
+}
+
 // ---- generators ---------------------------------------------------------------------------------------------------
 var vDelays = []time.Duration{0, 1, 999999999, time.Second, 1500 * time.Millisecond, 7 * time.Second, -1, -1500 * time.Millisecond, 3600 * time.Second, 2 * time.Second}
 
@@ -2214,6 +2337,9 @@ func TestVerifC15Hop(t *testing.T) {
 		custom.stop()
 	}
 	lap("2d")
+	// (2e) receivers with an explicit compression_algorithms list x every exporter compression
+	v.compressionLists(r, host)
+	lap("2e")
 	// (3) no items: acknowledged without the consumer; authenticator accepts / refuses
 	for transport := 0; transport < 3; transport++ {
 		for signal := 0; signal < 4; signal++ {
